@@ -310,7 +310,8 @@ func onResourceRuleUpdate(res string, rawResRules []*Rule) (err error) {
 	oldResCbs = append(oldResCbs, breakers[res]...)
 	updateMux.RUnlock()
 
-	newCbsOfRes := BuildResourceCircuitBreaker(res, rawResRules, oldResCbs)
+	// build from the valid rules only: an invalid (or nil) rule must not get a breaker
+	newCbsOfRes := BuildResourceCircuitBreaker(res, validResRules, oldResCbs)
 
 	updateMux.Lock()
 	if len(newCbsOfRes) == 0 {
